@@ -15,6 +15,11 @@ LEVEL = 'proof'
 
 def gen(rng, adversarial=False):
     la, lb = rng.uniform(20, 40, 2)
+    tight = rng.random() < 0.2
+    if tight:
+        # (see below) exact start, tolerance just above the worst-case error of a 0.3 px displacement: lattice constants in the ratio 1 : 2 and
+        # every inlier displaced by 0.29 px in a random direction -- any mis-scaling of the error by the cell shape shows
+        la, lb = [(20.0, 40.0), (40.0, 20.0), (25.0, 38.0)][int(rng.integers(0, 3))]
     ang = rng.uniform(0, 2 * np.pi)
     d = np.deg2rad(rng.uniform(60, 120)) * rng.choice([-1, 1])
     a = la * np.array([np.sin(ang), np.cos(ang)])
@@ -28,7 +33,7 @@ def gen(rng, adversarial=False):
             break
     noise = rng.uniform(0, 0.3)
     ang2 = rng.uniform(0, 2 * np.pi, n)
-    rad = rng.uniform(0, noise, n)
+    rad = rng.uniform(0, noise, n) if not tight else np.full(n, 0.29)
     pos = zero + idx @ np.array([a, b]) + np.stack([rad * np.sin(ang2), rad * np.cos(ang2)], axis=1)
     w = rng.uniform(0.5, 3.0, n)
     kinds = ['inlier'] * n
@@ -64,11 +69,18 @@ def gen(rng, adversarial=False):
     # the other half: the full 'about a pixel' range, where a far inlier may legitimately be missed by the first round
     sc = 1.0 if rng.random() < 0.5 else 0.18 * tol
     dz, da, db = ball(sc), ball(0.2 * sc if sc == 1.0 else 0.02 * tol), ball(0.2 * sc if sc == 1.0 else 0.02 * tol)
+    if tight:
+        # exact start parameters and a tolerance just above the largest error a 0.3 px displacement can have in a 60..120 degree cell
+        # (sqrt(2) * 0.3 / sin 60 = 0.49): every inlier is owed, whatever the cell shape
+        tol = float(rng.choice([0.5, 0.6, 0.8]))
+        dz, da, db = np.zeros(2), np.zeros(2), np.zeros(2)
     start = (zero + dz, a + da, b + db)
     # worst-case first-round error of an inlier: (noise + |dz| + (|i|+|j|) max(|da|,|db|)) * sqrt(2) / sin(60 deg) must stay below the tolerance
     bound = 1.64 * (0.3 + np.linalg.norm(dz) + 8 * max(np.linalg.norm(da), np.linalg.norm(db)))
     mm = int(rng.integers(3, 6))
-    return dict(pos=pos, w=w, kinds=kinds, true_idx=true_idx, start=start, tol=tol, mw=mw, mm=mm, true=(zero, a, b), complete=bool(bound < tol))
+    # (tight cases: with 0.29 px on every inlier the refit between the rounds can push a far inlier over a 0.5 px tolerance: completeness is then
+    #  decided by the exact model in the (K) stream -- "owed" --, not by this first-round bound)
+    return dict(pos=pos, w=w, kinds=kinds, true_idx=true_idx, start=start, tol=tol, mw=mw, mm=mm, true=(zero, a, b), complete=bool(bound < tol) and not tight)
 
 
 def gen_cloud(rng):
@@ -130,9 +142,12 @@ def stmt_failure(c):
     # completeness (every inlier selected, hence a valid match when there are >= min_match of them) is only owed when the start error
     # is small enough for the first round to catch every inlier at this tolerance; soundness is owed always
     complete = c.get('complete', True)
+    owed = c.get('owed') or [False] * len(c['kinds'])
     if m.isnan():
         if n_in >= c['mm'] and complete:
             return 'invalid match although %d inliers >= min_match=%d exist' % (n_in, c['mm'])
+        if sum(owed) >= c['mm']:
+            return 'invalid match although the two-round matching of the documentation selects %d inliers >= min_match=%d from these start parameters' % (sum(owed), c['mm'])
         if m.selector.any() or len(m.indices) != 0 or not np.isinf(m.error):
             return 'invalid match is not (NaN lattice, empty selection, infinite error)'
         return None
@@ -144,7 +159,7 @@ def stmt_failure(c):
         return 'a selected peak has elevation below min_weight'
     sel = [k for k in range(len(c['pos'])) if m.selector[k]]
     for k, kind in enumerate(c['kinds']):
-        if kind == 'inlier' and not m.selector[k] and complete:
+        if kind == 'inlier' and not m.selector[k] and (complete or owed[k]):
             return 'inlier #%d (within 0.3 px of lattice position %s) was not selected' % (k, c['true_idx'][k])
         if kind in ('outlier', 'weak') and m.selector[k]:
             return '%s peak #%d was selected' % (kind, k)
@@ -242,13 +257,36 @@ def adversarial(rng):
 
 def mk_replay(c, fail):
     return {'kind': 'input', 'call': 'Matcher.fastmatch', 'args': {'pos': c['pos'].tolist(), 'w': c['w'].tolist(), 'kinds': c['kinds'], 'true_idx': c['true_idx'],
-            'start': [v.tolist() for v in c['start']], 'tol': c['tol'], 'mw': c['mw'], 'mm': c['mm'], 'complete': bool(c.get('complete', True))}, 'failure': fail}
+            'start': [v.tolist() for v in c['start']], 'tol': c['tol'], 'mw': c['mw'], 'mm': c['mm'], 'complete': bool(c.get('complete', True)), 'owed': c.get('owed')}, 'failure': fail}
+
+
+def adversarial_failure(desc):
+    for d, kw in adversarial(np.random.default_rng(0)):
+        if d != desc:
+            continue
+        try:
+            m = grm.Matcher(tolerance=3, min_weight=0.1, min_match=3).fastmatch(**kw)
+        except Exception as e:  # noqa
+            return 'adversarial input (%s): fastmatch raised %s: %s' % (desc, type(e).__name__, e)
+        okk = m.isnan() or (len(m.indices) == int(m.selector.sum()) and int(m.selector.sum()) >= 3)
+        if desc in ('NaN position', 'inf position'):
+            bad = ~np.isfinite(kw['refineds']).all(axis=1)
+            okk = (not m.isnan()) and np.array_equal(m.selector, ~bad) and len(m.indices) == 8
+        return None if okk else 'adversarial input (%s): malformed result' % desc
+    return 'unknown adversarial case %s' % desc
 
 
 def replay(body):
     a = body['args']
+    if 'adversarial' in a:
+        fail = adversarial_failure(a['adversarial'])
+        print(json.dumps({'failure_now': fail}, indent=1))
+        if fail:
+            print('VIOLATION property=C05 replay=(given)')
+            return 1
+        return 0
     c = dict(pos=np.array(a['pos']), w=np.array(a['w']), kinds=a['kinds'], true_idx=[None if t is None else tuple(t) for t in a['true_idx']],
-             start=tuple(np.array(v) for v in a['start']), tol=a['tol'], mw=a['mw'], mm=a['mm'], complete=a.get('complete', True))
+             start=tuple(np.array(v) for v in a['start']), tol=a['tol'], mw=a['mw'], mm=a['mm'], complete=a.get('complete', True), owed=a.get('owed'))
     fail = defaults_failure(c) if a.get('defaults') else stmt_failure(c)
     print(json.dumps({'failure_now': fail}, indent=1))
     if fail:
@@ -275,6 +313,7 @@ def run(ctx):
             # tolerance of the order of the noise and of the start error: the accept/reject decisions are then close calls that
             # depend on |a|, |b| and on the sqrt(|index|) relaxation for indices of both signs (the exact model decides them)
             c['tol'] = float(rng.choice([0.2, 0.35, 0.5, 0.8]))
+            c['complete'] = False        # completeness (every inlier selected) was derived for the generator's tolerance; soundness is still owed
             # ... or a tolerance placed BETWEEN the first-round errors of two peaks (documented error formula, used here only to
             # choose the input): whatever changes the error of a peak by more than the gap flips a decision
             A = np.array([c['start'][1], c['start'][2]]).T
@@ -334,6 +373,10 @@ def run(ctx):
                         'impl_valid': not m.isnan(), 'model_valid': bool(ok), 'impl_selector': m.selector.astype(int).tolist()})
         if problems:
             ndis += 1
+            if c['true'] is not None and ok == 1:
+                # completeness is owed wherever the two-round algorithm of the documentation, run in exact arithmetic, achieves it: an inlier
+                # that the model selects from these start parameters at this tolerance must be selected (and the match must be valid)
+                c['owed'] = [bool(e[0] == 1 and kd == 'inlier') for e, kd in zip(mm_, c['kinds'])]
             fail = stmt_failure(c) if c['true'] is not None else wellformed_failure(c)
             if fail:
                 ctx.violation('input', fail, mk_replay(c, fail), signature='fastmatch: valid match with fewer than min_match points' if 'min_match' in fail and 'valid match with' in fail else fail)
@@ -386,17 +429,9 @@ def run(ctx):
             ctx.violation('input', fail, mk_replay(c, fail), signature='fastmatch: valid match with fewer than min_match points' if 'min_match' in fail and 'valid match with' in fail else fail)
             break
     for desc, kw in adversarial(rng):
-        try:
-            m = grm.Matcher(tolerance=3, min_weight=0.1, min_match=3).fastmatch(**kw)
-            okk = m.isnan() or (len(m.indices) == int(m.selector.sum()) and int(m.selector.sum()) >= 3)
-            if desc in ('NaN position', 'inf position'):
-                # one of nine lattice peaks has a non-finite coordinate: it matches nothing, the other eight are on lattice positions
-                bad = ~np.isfinite(kw['refineds']).all(axis=1)
-                okk = (not m.isnan()) and np.array_equal(m.selector, ~bad) and len(m.indices) == 8
-            if not okk:
-                ctx.violation('input', 'adversarial input (%s): malformed result' % desc, {'kind': 'input', 'call': 'Matcher.fastmatch', 'args': {'adversarial': desc}})
-        except Exception as e:  # noqa
-            ctx.violation('input', 'adversarial input (%s): fastmatch raised %s: %s' % (desc, type(e).__name__, e), {'kind': 'input', 'call': 'Matcher.fastmatch', 'args': {'adversarial': desc}})
+        fail = adversarial_failure(desc)
+        if fail:
+            ctx.violation('input', fail, {'kind': 'input', 'call': 'Matcher.fastmatch', 'args': {'adversarial': desc}, 'failure': fail})
         ctx.count(1, key=('adv', desc))
     return ctx.finish(
         LEVEL,
